@@ -6,6 +6,7 @@ import (
 	"math/big"
 	"sort"
 	"strings"
+	"time"
 
 	"golang.org/x/tools/go/ssa"
 
@@ -101,10 +102,15 @@ type Exec struct {
 	pow10Of       map[int]*smt.Term
 	iterN         int
 	wallN         int
+	runeN         int
 	frames        []*Frame
 	ForkSites     map[string]int
+	SlowSites     map[string]float64
 	merge         *mergeState
 	constDone     int
+	constMemo     map[int]*smt.Term
+	localMerge    map[string]bool
+	formattedBasketDenoms []*smt.Term
 }
 
 type Config struct {
@@ -118,6 +124,10 @@ type Config struct {
 	NoFeasCheck bool
 	NoMerge     bool
 	FullModels  bool
+	DebugPath   []int
+	Debug       bool
+	BudgetS     int
+	Transcript  string
 }
 
 func (c *Config) Bound(name string, def int) int {
@@ -170,7 +180,7 @@ func (x *Exec) syncConstAxioms() {
 				mag.Quo(mag, new(big.Rat).SetInt(pow10(-d.exp)))
 			}
 			ax = append(ax, B.App("dec_ok", smt.SBool, c), B.Eq(B.App("dec_form", smt.SInt, c), B.Int(int64(d.form))),
-				B.Eq(B.App("dec_neg", smt.SBool, c), B.Bool(d.neg)), B.Eq(B.App("dec_mag", smt.SReal, c), B.RatC(mag)),
+				B.Eq(B.App("dec_neg", smt.SBool, c), B.Bool(d.neg)), B.Eq(B.App("dec_coeff", smt.SInt, c), B.BigInt(d.coeff)),
 				B.Eq(B.App("dec_exp", smt.SInt, c), B.Int(int64(d.exp))),
 				B.Eq(B.App("dec_plain", smt.SBool, c), B.Bool(!strings.ContainsAny(s, "eE"))))
 		}
@@ -222,6 +232,13 @@ func (x *Exec) Branch(c *smt.Term) bool {
 		d := x.prefix[x.pos]
 		x.pos++
 		x.Trace = append(x.Trace, d)
+		if x.Cfg.Debug {
+			cs := c.String()
+			if len(cs) > 400 {
+				cs = cs[:400] + "..."
+			}
+			fmt.Printf("DECISION %d = %d at %s\n   cond %s\n", x.pos-1, d.Val, x.site(), cs)
+		}
 		if d.Val == 1 {
 			x.Assume(c, "branch")
 			return true
@@ -231,6 +248,12 @@ func (x *Exec) Branch(c *smt.Term) bool {
 	}
 	x.pos++
 	nc := x.B.Not(c)
+	t0 := time.Now()
+	defer func() {
+		if d := time.Since(t0).Seconds(); d > 1.0 {
+			x.SlowSites[x.site()] += d
+		}
+	}()
 	rT := x.S.Check(c)
 	if rT == smt.Unsat {
 		x.Trace = append(x.Trace, Decision{Val: 0, N: 2, Fixed: true})
@@ -279,6 +302,9 @@ func (x *Exec) Choose(n int, label string) int {
 		d := x.prefix[x.pos]
 		x.pos++
 		x.Trace = append(x.Trace, d)
+		if x.Cfg.Debug {
+			fmt.Printf("DECISION %d = %d choose %s\n", x.pos-1, d.Val, label)
+		}
 		return d.Val
 	}
 	x.pos++
@@ -320,6 +346,12 @@ func (x *Exec) Assert(c *smt.Term, name string) {
 		return
 	}
 	neg := x.B.Not(c)
+	t0 := time.Now()
+	defer func() {
+		if d := time.Since(t0).Seconds(); d > 1.0 {
+			x.SlowSites["assert: "+name] += d
+		}
+	}()
 	res, vals := x.S.CheckModel([]*smt.Term{neg}, x.modelTerms())
 	solver := x.S.P.Kind
 	if res == smt.Unknown {
@@ -328,7 +360,7 @@ func (x *Exec) Assert(c *smt.Term, name string) {
 	ob := ObResult{Name: name, Verdict: res.String(), Solver: solver, Path: x.tracePath()}
 	if res == smt.Sat {
 		ob.Model = x.namedModel(vals)
-		if solver == x.S.P.Kind && x.Cfg.FullModels {
+		if solver == x.S.P.Kind && x.Cfg.FullModels && x.P.firstFull(name) {
 			ob.Full = x.fullModel(neg)
 		}
 		ob.Detail = c.String()
